@@ -4,7 +4,8 @@ import lib, abisig, callgen, cppgen, c01
 
 
 NS_TYPES = {"Opq": ("dv::inner", None), "Host": ("dv", "RnHost"), "En": ("dv::inner", "RnEn"), "Inner": ("dv::inner::deep", None),
-            "Wide": (None, "RnWide"), "Mix": ("other", None), "Nest": ("dv", None), "WOpt": ("dv::inner", "Rn{0}"), "Brw": (None, None),
+            "Wide": (None, "RnWide"), "Mix": ("other", "Inner"),      # other::Inner next to dv::inner::deep::Inner: one C++ name, two namespaces
+             "Nest": ("dv", None), "WOpt": ("dv::inner", "Rn{0}"), "Brw": (None, None),
             "Os": ("other::x", None)}
 
 
@@ -292,6 +293,8 @@ def operators_leg(rep, wd):
 
 
 def usable(sig):
+    if any(p["k"] == "trait" for p in sig["params"]):
+        return False        # the C++ backend declares no trait support: `impl Trait` parameters belong to the C leg (C01) only
     has_utf8 = any(p["k"] == "str" and p["enc"] == "utf8" for p in sig["params"])
     if has_utf8 and (sig["ret"]["k"] in ("opq", "optopq") or (sig["ret"]["k"] == "res" and sig["ret"]["ok"]["k"] == "opq")
                      or (sig["ret"]["k"] == "struct" and sig["ret"]["n"] == "Brw")):
